@@ -65,14 +65,14 @@ CONSTANTS
         f.write(f"ACTION_CONSTRAINT {ac}\nCHECK_DEADLOCK FALSE\n")
 
 
-def tlc_mc(ck, label, timeout=600, workers=8, sched_sink=None, **kw):
+def tlc_mc(ck, label, timeout=600, workers=8, sched_sink=None, simulate=None, depth=None, **kw):
     # process id in the name: two runs of the same check (e.g. quick and thorough) must not share cfg files
     cfg = os.path.join(vlib.SPEC, f"MC_SctpAssoc_{ck.pid}_{label}.{os.getpid()}.gen.cfg")
     write_mc_cfg(cfg, emit=sched_sink is not None, **kw)
     try:
         if sched_sink:
             res = vlib.tlc("MC_SctpAssoc", os.path.basename(cfg), tags=("SCHED",), sinks={"SCHED": sched_sink},
-                           timeout=timeout, workers=1, tag=f"MC_SctpAssoc_{ck.pid}_{label}")
+                           timeout=timeout, workers=1, tag=f"MC_SctpAssoc_{ck.pid}_{label}", simulate=simulate, depth=depth)
         else:
             res = vlib.tlc("MC_SctpAssoc", os.path.basename(cfg), timeout=timeout, workers=workers,
                            tag=f"MC_SctpAssoc_{ck.pid}_{label}")
